@@ -407,5 +407,60 @@ func TestC19(t *testing.T) {
 			}
 		}
 	}
+	// --- MsgFeesDistribution.Increase over the messages of one transaction ---
+	{
+		nd := scale(150, 5000)
+		for i := 0; i < nd; i++ {
+			nrec := 1 + r.Intn(3)
+			recs := make([]string, nrec)
+			for j := range recs {
+				recs[j] = addrN(40 + j).String()
+			}
+			dist := msgfeestypes.MsgFeesDistribution{RecipientDistributions: map[string]sdk.Coins{}}
+			nops := 1 + r.Intn(6)
+			var ops []string
+			var opsDesc []map[string]any
+			for k := 0; k < nops; k++ {
+				amt := randAmount(r, pool)
+				if r.Intn(8) == 0 {
+					amt.SetInt64(0)
+				}
+				if amt.BitLen() > 250 {
+					amt.Rsh(amt, 10)
+				}
+				bips := uint32(r.Intn(10001))
+				if r.Intn(4) == 0 {
+					bips = []uint32{0, 1, 5000, 9999, 10000}[r.Intn(5)]
+				}
+				rid := -1
+				recip := ""
+				if r.Intn(4) != 0 {
+					rid = r.Intn(nrec)
+					recip = recs[rid]
+				}
+				err := try(func() error {
+					return dist.Increase(sdk.Coin{Denom: "feecoin", Amount: sdkmath.NewIntFromBigInt(amt)}, bips, recip)
+				})
+				if err != nil {
+					t.Fatalf("Increase(%s, %d): %v", amt, bips, err)
+				}
+				ro := "None"
+				if rid >= 0 {
+					ro = fmt.Sprintf("(Some %d%%N)", rid)
+				}
+				ops = append(ops, "("+zBig(amt)+", "+zI64(int64(bips))+", "+ro+")")
+				opsDesc = append(opsDesc, map[string]any{"amount": amt.String(), "bips": bips, "recipient": rid})
+			}
+			var recAmts []string
+			for j := range recs {
+				recAmts = append(recAmts, zInt(dist.RecipientDistributions[recs[j]].AmountOf("feecoin")))
+			}
+			term := "CDist " + coqList(ops) + " " + fmt.Sprintf("%d%%N", nrec) + " (" + zInt(dist.TotalAdditionalFees.AmountOf("feecoin")) + ", " +
+				zInt(dist.AdditionalModuleFees.AmountOf("feecoin")) + ", " + coqList(recAmts) + ")"
+			w.Add(term, desc{"fn": "MsgFeesDistribution.Increase", "ops": opsDesc})
+			w.Count("fee_distribution_sequences")
+			w.Nontrivial("d/" + term)
+		}
+	}
 	w.Flush(t)
 }
